@@ -1522,10 +1522,7 @@ func (m *Machine) Eval(source string, fn func(), ctx context.Context) bool {
 		canceled.Store(true)
 		m.log(LogOps, "[eval:timeout] %s", source)
 		err := fmt.Errorf("%w: eval:%s", ErrEvalTimeout, source)
-		select {
-		case m.errInternal <- err:
-		default:
-		}
+		m.sendErrInternal(err)
 		return false
 
 	case <-m.ctx.Done():
@@ -2509,10 +2506,7 @@ func (m *Machine) processHandlers(e *Event) (Result, bool) {
 			m.log(LogOps, "[cancel] (%s) by timeout", j(tx.TargetStates()))
 			m.log(LogDecisions, "[handler:timeout]: %s from %s", methodName, h.id)
 			err := fmt.Errorf("%w: %s from %s", ErrHandlerTimeout, methodName, h.id)
-			select {
-			case m.errInternal <- err:
-			default:
-			}
+			m.sendErrInternal(err)
 			timeout = true
 
 			// wait for the handler to exit within HandlerDeadline
@@ -2803,6 +2797,20 @@ func (m *Machine) Transition() *Transition {
 // IsLocal returns true for *am.Machine and false for *arpc.NetworkMachine.
 func (m *Machine) IsLocal() bool {
 	return true
+}
+
+// sendErrInternal passes a timeout error to [Machine.ErrInternal], without
+// blocking. The channel gets closed by a disposal, possibly while a timeout
+// fires.
+func (m *Machine) sendErrInternal(err error) {
+	defer func() {
+		_ = recover()
+	}()
+
+	select {
+	case m.errInternal <- err:
+	default:
+	}
 }
 
 // ErrInternal returns a channel which receives handler and eval timeout errors,
